@@ -1,6 +1,6 @@
 #!/bin/bash
 # tools/sweep.sh [tier] : run every check listed in tools/ready.txt once; one summary line each
-cd /verif; tier=${1:-quick}
+cd "$(dirname "$0")/.."; tier=${1:-quick}
 for id in $(cat tools/ready.txt); do
   s=$(date +%s); out=$(timeout 3600 ./check $id --tier $tier 2>&1); rc=$?
   echo "$id rc=$rc $(( $(date +%s) - s ))s known=$(echo "$out" | grep -c '^KNOWN-FINDING') $(echo "$out" | grep -E ' -> ' | tail -1 | sed 's/.*eval=/eval=/')"
